@@ -37,6 +37,8 @@ def gen_cases(tier, seed):
     def add(cid, cols, rgs=(60,), codec="UNCOMPRESSED", **extra):
         k[0] += 1
         rec = {"seed": 3000 + k[0], "flat": True, "row_groups": list(rgs), "codec": codec, "columns": cols}
+        if extra.get("with_kv"):
+            rec["kv"] = [("writer.note", "kept")]
         if extra.get("pandas_units_"):
             rec["pandas_units"] = extra.pop("pandas_units_")
         cases.append(dict({"id": cid, "recipe": rec}, **extra))
@@ -90,6 +92,16 @@ def gen_cases(tier, seed):
             add("Z/%s/%s" % (codec, flag), [_col("i64", page_version=2, v2_compressed=flag, page_rows=[25]), _col("utf8", name="s", page_version=2, v2_compressed=flag,
                                                                                                                    use_dict=True, distinct=4, optional=True, nulls="alt")],
                 rgs=(80,), codec=codec)
+    # --- a file of another writer to which fastparquet then appends: the other writer's row groups must still decode to what they encode
+    #     (level blocks in two runs / bit-packed on null-free OPTIONAL columns, dictionary indices of width 8 in mixed runs, statistics present)
+    for t in ("i32", "i64", "f64", "utf8"):
+        for ver, dplan, use_dict, with_kv in itertools.product((1, 2), ("mixed", "bp"), (False, True), (False, True)):
+            if quick and (zlib.crc32(repr((t, ver, dplan, use_dict, with_kv)).encode()) % 2):
+                continue
+            add("AP/%s/v%d/%s/%s/%s" % (t, ver, dplan, "dict" if use_dict else "plain", "kv" if with_kv else "nokv"),
+                [_col(t, optional=True, nulls="none", use_dict=use_dict, distinct=200 if use_dict else None, page_version=ver, page_rows=[23, 40], def_plan=dplan, idx_plan="mixed", min_index_width=8),
+                 _col("i64", name="x", optional=True, nulls="p20", page_version=ver, def_plan=dplan)],
+                rgs=(300, 57), then_append=True, with_kv=with_kv)
     # --- a dictionary-encoded column chunk without any value (all rows NULL): a dictionary page with zero entries and zero bytes
     for t in ("i32", "i64", "f64", "utf8", "bytes", "ts_us"):
         for ver in (1, 2):
@@ -283,6 +295,25 @@ def run_case(case):
             counters["columns_compared"] = counters.get("columns_compared", 0) + 1
             counters["enc:" + cd["enc"]] = counters.get("enc:" + cd["enc"], 0) + 1
             counters["v%s" % (c["page_version"] if not isinstance(c["page_version"], list) else "mixed")] = 1
+        if case.get("then_append") and not res["failures"]:
+            # fastparquet appends some of the rows it has just read; everything is read again through a fresh handle
+            try:
+                fastparquet.write(path, got.iloc[:17].reset_index(drop=True), append=True)
+                again = fastparquet.ParquetFile(path).to_pandas()
+            except Exception as e:
+                res["failures"].append({"kind": "append_to_foreign_file_or_read_after_it_raised", **ctx, **C.exc_shape(e), "columns": [_cdesc(c, case) for c in rec["columns"]]})
+            else:
+                counters["foreign_files_appended_to"] = 1
+                if len(again) != n + 17:
+                    res["failures"].append({"kind": "row_count", "expected": n + 17, "got": len(again), "after_append": True, **ctx})
+                else:
+                    for c in rec["columns"]:
+                        gv, _ = RC.got_cells(again[c["name"]])
+                        ev = expected[c["name"]]
+                        bad = [i for i, (a, b) in enumerate(zip(ev + ev[:17], gv)) if a != b]
+                        if bad:
+                            res["failures"].append({"kind": "cells_differ", "column": c["name"], "n_bad": len(bad), "n": len(gv), "first_bad": bad[:4], "after_append": True,
+                                                    "expected": [repr((ev + ev[:17])[i])[:50] for i in bad[:3]], "got": [repr(gv[i])[:50] for i in bad[:3]], **ctx, **_cdesc(c, case)})
         res["outcome"] = "ok"
         res["nontrivial"] = n > 0
         res["features"] = [_feat(c, rec, case) for c in rec["columns"]]
@@ -323,4 +354,4 @@ def coverage_extra(agg):
 
 def required(tier):
     return {"files_read": 700, "columns_compared": 900, "enc:DICT": 200, "enc:PLAIN": 200, "enc:DELTA_BINARY_PACKED": 80, "enc:RLE": 10,
-            "unsupported_files": 8, "files_with_pandas_resolution_metadata": 40, "files_with_an_empty_dictionary_page": 20}
+            "unsupported_files": 8, "files_with_pandas_resolution_metadata": 40, "files_with_an_empty_dictionary_page": 20, "foreign_files_appended_to": 15}
